@@ -106,9 +106,13 @@ structure TravMon where
   pages : Nat := 0
   first : List (K × String) := []   -- registry at the first fetch
 
+/-- A foreign server's list method: cursor received ↦ answer (`Model.scriptOracle`). -/
+abbrev Script := List (DCur × Res K String DCur)
+
 structure KindSt where
   fs : FS K String := FS.empty
   reg : List (K × String) := []
+  script : Option Script := none   -- `some`: the list method is played by a scripted foreign server
   mit : Option (Iter K String DCur) := none   -- model iterator
   sit : Option (Iter K String DCur) := none   -- monitor iterator (against the registry)
   tr : Option TravMon := none
@@ -154,6 +158,48 @@ def parsePageObs (impl : String) : Option (List (K × String) × DCur) :=
         some (items, cur)
   | _ => none
 
+/-! ### scripted (foreign) servers -/
+
+/-- Script cursors travel as `-` / `x<hex>`; a foreign cursor is its own name (`.good bytes`). -/
+def parseSCur (t : String) : Option DCur :=
+  if t == "-" then some .nil else (xToKey t).map .good
+
+def parseSItem (w : String) : Option (K × String) :=
+  match w.splitOn ":" with
+  | [a, b] => (hexToKey a).map (fun k => (k, b))
+  | _ => none
+
+/-- `<cur>=<items>=<next>` or `<cur>=!`; a value ending in `!` marks a tool that `ListTools` drops. -/
+def parseSEntry (t : String) : Option (DCur × Res K String DCur) :=
+  match t.splitOn "=" with
+  | [c, "!"] => (parseSCur c).map (fun c => (c, .invalidParams))
+  | [c, its, n] => do
+    let c ← parseSCur c
+    let n ← parseSCur n
+    let items ← (if its == "" then some [] else (its.splitOn ",").mapM parseSItem)
+    some (c, .page items n)
+  | _ => none
+
+/-- What `filterValidTools` keeps (only `ListTools` filters). -/
+def keepItem (kind : String) (f : K × String) : Bool := !(kind == "tools" && f.2.endsWith "!")
+
+/-- The server as the client's `ListX` sees it: the script, then `ListTools`' per-page filter. -/
+def scriptedOracle (kind : String) (sc : Script) : Nat → DCur → Res K String DCur :=
+  filterOracle (keepItem kind) (scriptOracle sc)
+
+def scriptItems (sc : Script) : Nat :=
+  sc.foldl (fun n e => match e.2 with | .page items _ => n + items.length | _ => n) 0
+
+def showEnding : Ending → String
+  | .done => "end"
+  | .error => errInvalid
+  | .running => "runaway"
+
+/-- Manual paging (`Model.manual`) rendered like an `iterall` observation. -/
+def manualAll (o : Nat → DCur → Res K String DCur) (cur : DCur) (fuel : Nat) : String × Ending :=
+  let r := manual DCur.nil o fuel 0 cur
+  (" ".intercalate (("items" :: r.1.flatten.map showItem) ++ [showEnding r.2]), r.2)
+
 def strictlyAscending : List K → Bool
   | [] => true
   | [_] => true
@@ -172,6 +218,7 @@ def monList (reg : List (K × String)) (p : Nat) (cur : DCur) (impl : String) : 
       match want with
       | .page witems wnext =>
         if items != witems then some "C17: page is not the first p registered entries above the cursor, ascending"
+        else if next == .bad then some "C17: the NextCursor the server issued is refused by the server's own decodeCursor (following cursors cannot reach the remaining items)"
         else if next != wnext then some "C17: NextCursor wrong (empty exactly on the last page, else decodes to the last key returned)"
         else some "C17: page differs from the specification"
       | _ => some "C17: page differs from the specification"
@@ -208,20 +255,20 @@ def pullEvent (o : Nat → DCur → Res K String DCur) : Nat → Iter K String D
     | (it', .again) => pullEvent o f it'
     | r => r
 
-def pullMany (o : Nat → DCur → Res K String DCur) : Nat → Iter K String DCur → List String → Iter K String DCur × String
+def pullMany (o : Nat → DCur → Res K String DCur) (rounds : Nat) : Nat → Iter K String DCur → List String → Iter K String DCur × String
   | 0, it, acc => (it, " ".intercalate (("items" :: acc.reverse) ++ ["more"]))
   | m + 1, it, acc =>
-    match pullEvent o 3 it with
-    | (it', .item x) => pullMany o m it' (showItem x :: acc)
+    match pullEvent o rounds it with
+    | (it', .item x) => pullMany o rounds m it' (showItem x :: acc)
     | (it', .stop) => (it', " ".intercalate (("items" :: acc.reverse) ++ ["end"]))
     | (it', .err) => (it', " ".intercalate (("items" :: acc.reverse) ++ [errInvalid]))
     | (it', .again) => (it', " ".intercalate (("items" :: acc.reverse) ++ ["stuck"]))
 
-def iterAll (o : Nat → DCur → Res K String DCur) (cur : DCur) (fuel : Nat) : String :=
+def iterAll (o : Nat → DCur → Res K String DCur) (cur : DCur) (fuel : Nat) (rounds : Nat := 3) : String :=
   let rec go : Nat → Iter K String DCur → List String → String
     | 0, _, acc => " ".intercalate (("items" :: acc.reverse) ++ ["runaway"])
     | f + 1, it, acc =>
-      match pullEvent o 3 it with
+      match pullEvent o rounds it with
       | (it', .item x) => go f it' (showItem x :: acc)
       | (_, .stop) => " ".intercalate (("items" :: acc.reverse) ++ ["end"])
       | (_, .err) => " ".intercalate (("items" :: acc.reverse) ++ [errInvalid])
@@ -230,6 +277,23 @@ def iterAll (o : Nat → DCur → Res K String DCur) (cur : DCur) (fuel : Nat) :
 
 def markMutated (k : KindSt) : KindSt :=
   { k with tr := k.tr.map (fun t => { t with mutated := true }) }
+
+def stepList (d : DState) (kind cur : String) (impl : String) : DState × Verdict :=
+  match d.get kind, parseCur cur with
+  | some k, some c =>
+    match k.script with
+    | some sc =>
+      -- foreign server: `ListX` must hand over the page it was sent (minus dropped tools)
+      let want := showRes (scriptedOracle kind sc 0 c)
+      let viol := if impl == want then none
+        else some "C17: ListX result is not the page the server sent (items in order, NextCursor unchanged; ListTools minus tools with invalid x-mcp-header annotations)"
+      (d, { model := want, violated := viol })
+    | none =>
+      let (fs', res) := paginate dcodec d.p k.fs c
+      let viol := monList k.reg d.p c impl
+      let tr' := k.tr.map (fun t => travFetch t k.reg impl)
+      (d.set kind { k with fs := fs', tr := tr' }, { model := showRes res, violated := viol })
+  | _, _ => (d, { model := "bad-op" })
 
 def engine : Engine DState where
   init := {}
@@ -255,14 +319,24 @@ def engine : Engine DState where
         let k' := markMutated { k with fs := (k.fs.remove ks).1, reg := regRemove k.reg ks }
         (d.set kind k', { model := "ok" })
       | _, _ => (d, { model := "bad-op" })
-    | ["list", kind, cur, _] =>
-      match d.get kind, parseCur cur with
-      | some k, some c =>
-        let (fs', res) := paginate dcodec d.p k.fs c
-        let viol := monList k.reg d.p c impl
-        let tr' := k.tr.map (fun t => travFetch t k.reg impl)
-        (d.set kind { k with fs := fs', tr := tr' }, { model := showRes res, violated := viol })
+    | "script" :: kind :: rest =>
+      match d.get kind, rest.mapM parseSEntry with
+      | some k, some sc => (d.set kind { k with script := some sc }, { model := "ok" })
       | _, _ => (d, { model := "bad-op" })
+    | ["unscript", kind] =>
+      match d.get kind with
+      | some k => (d.set kind { k with script := none }, { model := "ok" })
+      | none => (d, { model := "bad-op" })
+    | ["list", kind, cur, _, "follow"] =>
+      -- the request carries the NextCursor of the previous answer for this kind
+      let (d', out) := stepList d kind cur impl
+      let scripted := match d.get kind with
+        | some k => k.script.isSome
+        | none => false
+      if impl == errInvalid && out.violated.isNone && !scripted then
+        (d', { out with violated := some "C17: the server refused (invalid params) the NextCursor it had just issued" })
+      else (d', out)
+    | ["list", kind, cur, _] => stepList d kind cur impl
     | ["tbegin", kind] =>
       match d.get kind with
       | some k => (d.set kind { k with tr := some {} }, { model := "ok" })
@@ -285,10 +359,19 @@ def engine : Engine DState where
       | some k, some m =>
         match k.mit, k.sit with
         | some mit, some sit =>
+          match k.script with
+          | some sc =>
+            -- the iterator machine against the foreign server; any number of empty pages in a row
+            let o := scriptedOracle kind sc
+            let (mit', mout) := pullMany o (sc.length + 3) m mit []
+            let viol := if impl == mout then none
+              else some "C17: iterator sequence differs from manual paging against a foreign server (start at the given cursor, follow NextCursor until it is empty whatever the pages hold, stop at the first error)"
+            (d.set kind { k with mit := some mit', sit := some mit' }, { model := mout, violated := viol })
+          | none =>
           -- model: the iterator machine against the model server (whose index cache it fills)
           let fsAfter := k.fs.sortKeys
-          let (mit', mout) := pullMany (fun _ c => (paginate dcodec d.p k.fs c).2) m mit []
-          let (sit', sout) := pullMany (fun _ c => specPage k.reg d.p c) m sit []
+          let (mit', mout) := pullMany (fun _ c => (paginate dcodec d.p k.fs c).2) 3 m mit []
+          let (sit', sout) := pullMany (fun _ c => specPage k.reg d.p c) 3 m sit []
           let viol := if impl == sout then none
             else some "C17: iterator sequence differs from manual paging"
           (d.set kind { k with fs := fsAfter, mit := some mit', sit := some sit' }, { model := mout, violated := viol })
@@ -301,6 +384,17 @@ def engine : Engine DState where
     | ["iterall", kind, cur, _] =>
       match d.get kind, parseCur cur with
       | some k, some c =>
+        match k.script with
+        | some sc =>
+          -- model: the iterator machine; monitor: manual paging, literally (`Model.manual`)
+          let o := scriptedOracle kind sc
+          let mout := iterAll o c (scriptItems sc + 4) (sc.length + 3)
+          let (sout, ending) := manualAll o c (sc.length + 2)
+          -- (a cyclic script has no finite manual listing: nothing to compare with)
+          let viol := if impl == sout || ending == .running then none
+            else some "C17: iterator sequence differs from manual paging against a foreign server (start at the given cursor, follow NextCursor until it is empty whatever the pages hold, stop at the first error)"
+          (d, { model := mout, violated := viol })
+        | none =>
         let fuel := 2 * k.reg.length + 8
         let mout := iterAll (fun _ c => (paginate dcodec d.p k.fs c).2) c fuel
         let sout := iterAll (fun _ c => specPage k.reg d.p c) c fuel
